@@ -421,6 +421,19 @@ def run(prog: Program, chk: Check):
                 leaves = [s for st in h.body for s in walk_local(st) if isinstance(s, (ast.Return, ast.Break, ast.Raise))]
                 D.decide(not leaves, fkey(f, f"handler-continues:{norm(tsends[0])}"), where(f, h), "handler falls through to the next recipient",
                          f"write-failure handler in {f.qual} leaves the recipient loop: " + "; ".join(norm(s) for s in leaves))
+    # the acknowledgement during whose delivery the requester's departure is discovered still reaches the loggers: in
+    # send_ack the logger fan-out lies on every normal path, the write-failure handler's included
+    sack_ = mm.methods.get("send_ack")
+    if sack_ is not None:
+        ag_ = C.build(sack_.node)
+        lg_ = [n for n in ag_.nodes for c in node_calls(n) if self_call("send_to_loggers")(c)]
+        lg_ += [n for n in ag_.nodes if n.kind == "for" and "logger_modules" in norm(n.ast.iter)
+                and any(is_method_call(cc, "send_message") and path_of(recv_of(cc)) == path_of(n.ast.target) for cc in calls_in(n.ast))]
+        has_handler = any(isinstance(x, ast.ExceptHandler) for x in walk_local(sack_.node))
+        D.decide(bool(lg_) and not flow.must_follow(ag_, [ag_.entry], lg_, exits=("exit",)), fkey(sack_, "ack-copy-after-failed-requester"), where(sack_),
+                 "the loggers' copy of an acknowledgement is sent on every normal path of send_ack" + (" (after the write-failure handler too)" if has_handler else ""),
+                 "MessageManager.send_ack: a normal path - the one through the requester's write-failure handler - skips the logger fan-out: "
+                 "the remaining clients (loggers) lose the very message during whose delivery the departure was discovered")
     # the message in flight must survive the nested publications (CLIENT_CLOSED, FAILED_MESSAGE, log records) that the
     # failure handling performs from inside the recipient loop: outgoing headers / payloads are per-call objects
     from ..dataflow import definitions as _defs
